@@ -318,4 +318,64 @@ def onSuffix (m : MatrixModel) (kind : Nat) (entries : List (Nat × Rat)) : List
   if kind % 4 == 0 then dense nmax (entries.map (fun e => (vpermInv m e.1, e.2)))
   else dense nmax entries
 
+/-! ## State that outlives one model: `NLModel::PreprocessData` (owned by `NLSolver` as `pd_`) -/
+
+/-- `NLModel::PreprocessData` -/
+structure Pd where
+  vperm : List Nat
+  vpermInv : List Nat
+  deriving Repr, DecidableEq, Inhabited
+
+/-- `std::vector<int>::resize(n)` -/
+def resizeTo (l : List Nat) (n : Nat) : List Nat := l.take n ++ List.replicate (n - l.length) 0
+
+/-- `NLFeeder_Easy::ExportPreproData(pd)`: resize both vectors to `NumCols()`, then assign every entry.
+A state update: `pd` may hold the permutation of a previously loaded model. -/
+def exportPrepro (old : Pd) (m : MatrixModel) : Pd :=
+  { vperm := (List.range m.n).foldl (fun acc i => acc.set i (vperm m i)) (resizeTo old.vperm m.n)
+    vpermInv := (List.range m.n).foldl (fun acc i => acc.set i (vpermInv m i)) (resizeTo old.vpermInv m.n) }
+
+/-- what a fresh `PreprocessData` holds after exporting `m` -/
+def pdOf (m : MatrixModel) : Pd :=
+  { vperm := (List.range m.n).map (vperm m), vpermInv := (List.range m.n).map (vpermInv m) }
+
+/-- a history: models loaded one after the other through the same `NLSolver` / `PreprocessData` -/
+def runHistory (pd0 : Pd) (ms : List MatrixModel) : Pd := ms.foldl exportPrepro pd0
+
+/-- `SOLHandler_Easy::OnPrimalSolution` as written: uses the stored `pd_.vperm_inv_`
+(`x_.resize(num_vars)`, then `x_[pd_.vperm_inv_[i]] = value_i` for `i` ascending: a later write wins) -/
+def onPrimalPd (pd : Pd) (n : Nat) (xs : List Rat) : List Rat :=
+  if xs.isEmpty then []
+  else dense n (xs.zipIdx.map (fun e => (pd.vpermInv.getD e.2 0, e.1)))
+
+/-- `SOLHandler_Easy::OnSuffix` as written: uses the stored `pd_.vperm_inv_` -/
+def onSuffixPd (pd : Pd) (n mrows : Nat) (kind : Nat) (entries : List (Nat × Rat)) : List Rat :=
+  let nmax := match kind % 4 with | 0 => n | 1 => mrows | _ => 1
+  if kind % 4 == 0 then dense nmax (entries.map (fun e => (pd.vpermInv.getD e.1 0, e.2)))
+  else dense nmax entries
+
+/-- `OnSuffix` index test `val.first<0 || val.first>=nmax` (indices are naturals here) -/
+def solSuffixOk (n mrows kind : Nat) (entries : List (Nat × Rat)) : Bool :=
+  let nmax := match kind % 4 with | 0 => n | 1 => mrows | _ => 1
+  entries.all (fun e => decide (e.1 < nmax))
+
+/-- suffixes delivered by `ReadSolution`, in file order: a suffix with a bad index is dropped (`SetError`,
+`return` before `Add`) and the SOL reader stops there, so the later ones are never read -/
+def readSolSuffixes (pd : Pd) (n mrows : Nat) (l : List (String × Nat × List (Nat × Rat))) : List (String × Nat × List Rat) :=
+  (l.takeWhile (fun s => solSuffixOk n mrows s.2.1 s.2.2)).map (fun s => (s.1, s.2.1, onSuffixPd pd n mrows s.2.1 s.2.2))
+
+/-- `NLSolver::ReadSolution` leaves an error message iff the SOL reader stopped at a bad suffix -/
+def solReadError (n mrows : Nat) (l : List (String × Nat × List (Nat × Rat))) : Bool :=
+  !(l.all (fun s => solSuffixOk n mrows s.2.1 s.2.2))
+
+/-- `err_msg_` of an `NLSolver` is only ever assigned, never cleared: the flag seen after a read is sticky -/
+def stickyErr (before now : Bool) : Bool := before || now
+
+/-- failure paths that need no model data (harness op `P`): `ReadSolution` before any model was loaded gives
+"no result" (`solve_result_ = -2`, no values, an error message); with a stub that cannot be written `LoadModel` /
+`WriteNL` fail with a message, the permutation is still exported, and `ReadSolution` gives "no result" -/
+def probeLines : List String :=
+  ["probe cpp presol code -2 nx 0 err 1", "probe cpp badstub load 0 werr 1 err 1 code -2 nx 0 perm 2",
+   "probe c presol code -2 nx 0 err 1", "probe c badstub load 0 werr 1 err 1 code -2 nx 0 perm 2"]
+
 end MpVerif.C08
